@@ -244,36 +244,72 @@ def body(ctx):
     exc = extract.Extractor(ctx, prelude=prelude, tag="c18cu")
     cus = [("au::Meters", "au::Feet"), ("au::Hours", "au::Days"), ("au::Miles", "au::Meters"), ("au::Degrees", "au::Radians"),
            # units with different origins: as QUANTITY units their common unit (and its label) ignores the origins
-           ("au::Kelvins", "au::Fahrenheit"), ("au::Celsius", "au::Fahrenheit"), ("au::Fahrenheit", "au::Kelvins")]
-    for i, (a, b) in enumerate(cus):
-        exc.add("cu_%d" % i, "auv::Text", "auv::text(au::unit_label(au::CommonUnitT<%s, %s>{}))" % (a, b))
+           ("au::Kelvins", "au::Fahrenheit"), ("au::Celsius", "au::Fahrenheit"), ("au::Fahrenheit", "au::Kelvins"),
+           # three and more inputs: the label's size depends on the NUMBER of entries that remain after
+           # the inputs that are integer multiples of another input have been eliminated
+           ("au::Meters", "au::Feet", "au::NauticalMiles"), ("au::Hours", "au::Days", "au::Minutes"), ("au::Miles", "au::Meters", "au::Fathoms", "au::Inches"),
+           ("au::Degrees", "au::Radians", "au::Revolutions"), ("au::USGallons", "au::Liters", "au::USPints"), ("au::Meters", "au::Feet", "au::Yards"),
+           ("au::Meters", "au::Miles", "au::NauticalMiles", "au::Fathoms", "au::Furlongs"),
+           # ... and inputs of which NONE is an integer multiple of another (all entries remain): the
+           # library's length and time units are all multiples of inches or of meters, so compounds
+           ("au::Knots", "decltype(au::Miles{} / au::Hours{})", "decltype(au::Meters{} / au::Seconds{})"),
+           ("au::Liters", "au::USGallons", "decltype(au::pow<3>(au::Feet{}))"),
+           ("au::Knots", "decltype(au::Miles{} / au::Hours{})", "decltype(au::Meters{} / au::Seconds{})", "decltype(au::Feet{} / au::Minutes{})", "decltype(au::Yards{} / au::Days{})")]
+
+    class _CU:
+        def __init__(self, mag, label):
+            self.mag, self.label = mag, label
+
+    def cu_unit(e):
+        if e.startswith("au::") and e[4:] in byname:
+            return byname[e[4:]]
+        m_ = re.match(r"^decltype\(au::(\w+)\{\} / au::(\w+)\{\}\)$", e)
+        if m_:
+            a_, b_ = byname[m_.group(1)], byname[m_.group(2)]
+            return _CU(model.div(a_.mag, b_.mag), "%s / %s" % (a_.label, b_.label))
+        m_ = re.match(r"^decltype\(au::pow<(\d+)>\(au::(\w+)\{\}\)\)$", e)
+        if m_:
+            a_ = byname[m_.group(2)]
+            return _CU(model.power(a_.mag, int(m_.group(1))), "%s^%s" % (a_.label, m_.group(1)))
+        raise AnalysisBroken("common-unit label input not understood: %s" % e)
+    for i, tup in enumerate(cus):
+        exc.add("cu_%d" % i, "auv::Text", "auv::text(au::unit_label(au::CommonUnitT<%s>{}))" % ", ".join(tup))
     cv = exc.run()
-    for i, (a, b) in enumerate(cus):
-        ua, ub = byname[a[4:]], byname[b[4:]]
+    for i, tup in enumerate(cus):
+        us = [cu_unit(a) for a in tup]
+        key = "culabel:" + "|".join(tup)
         nob += 1
         if cv["cu_%d" % i][0] == "error":
-            ctx.violation("culabel:%s|%s" % (a, b), "label of CommonUnitT<%s, %s> does not compile" % (a, b))
+            ctx.violation(key, "label of CommonUnitT<%s> does not compile: %s" % (", ".join(tup), str(cv["cu_%d" % i][1])[:300]))
             continue
         text = extract.text_of(cv["cu_%d" % i])[1][:-1].decode("latin-1")
-        q = model.div(ua.mag, ub.mag)
-        if model.mag_is_rational(q):
-            g = model.common_mag(ua.mag, ub.mag)
-            ka, kb = model.div(g, ua.mag), model.div(g, ub.mag)
-            if not ka:
-                want = ua.label
-            elif not kb:
-                want = ub.label
+        # an input that is a positive integer multiple of another input adds nothing
+        keep = []
+        for x, u in enumerate(us):
+            red = False
+            for y, w in enumerate(us):
+                if x == y or not model.mag_is_rational(model.div(u.mag, w.mag)):
+                    continue
+                q = model.mag_to_fraction(model.div(u.mag, w.mag))
+                if q.denominator == 1 and (q > 1 or (q == 1 and y < x)):
+                    red = True
+            if not red:
+                keep.append(u)
+        if all(model.mag_is_rational(model.div(u.mag, keep[0].mag)) for u in keep):
+            g = model.common_mag(*[u.mag for u in keep])
+            if len(keep) == 1:
+                want = keep[0].label
             else:
                 def sc(k, lab):
                     ml, sl = trees.mag_label(k)
                     return "[%s %s]" % ("(%s)" % ml if sl else ml, lab)
-                want = "EQUIV{%s, %s}" % (sc(ka, ua.label), sc(kb, ub.label))
+                want = "EQUIV{%s}" % ", ".join(sc(model.div(g, u.mag), u.label) for u in keep)
             if trees.canon_label(text) != trees.canon_label(want):
-                ctx.violation("culabel:%s|%s" % (a, b), "label of CommonUnitT<%s, %s> is %r, the grammar gives %r" % (a, b, text, want))
+                ctx.violation(key, "label of CommonUnitT<%s> is %r, the grammar gives %r" % (", ".join(tup), text, want))
                 continue
         else:
-            if not text.startswith("EQUIV{"):
-                ctx.violation("culabel:%s|%s" % (a, b), "label of CommonUnitT<%s, %s> is %r: expected an EQUIV{...} label" % (a, b, text))
+            if not text.startswith("EQUIV{") or text.count("[") != len(keep):
+                ctx.violation(key, "label of CommonUnitT<%s> is %r: expected an EQUIV{...} label with %d entries" % (", ".join(tup), text, len(keep)))
                 continue
         ndis += 1
     items += itoa_items() + random_itoa(rnd, 200 if ctx.thorough else 40) + collision_items()
